@@ -68,6 +68,35 @@ fn line_of<const L: usize>(alphabet: &[u8]) {
     assert!(a.len() == b.len());
 }
 
+/// line_of on strings of K characters drawn from {LF, CR, 'a', 'é'} (multi-byte characters before the offset).
+fn line_of_kinds<const K: usize, const CAP: usize>() {
+    let mut buf = [0u8; CAP];
+    let mut len = 0usize;
+    let mut k = 0;
+    while k < K {
+        let c = nd::u8();
+        nd::assume(c < 4);
+        match c {
+            0 => { buf[len] = b'\n'; len += 1; }
+            1 => { buf[len] = b'\r'; len += 1; }
+            2 => { buf[len] = b'a'; len += 1; }
+            _ => { buf[len] = 0xC3; buf[len + 1] = 0xA9; len += 2; }
+        }
+        k += 1;
+    }
+    let s = unsafe { core::str::from_utf8_unchecked(&buf[..len]) };
+    let o = nd::usize();
+    let m = Position::new(s, o);
+    let t = pest::Position::new(s, o);
+    nd::assume(m.is_some() && t.is_some());
+    let (m, t) = (m.unwrap(), t.unwrap());
+    let a = m.line_of();
+    let b = t.line_of();
+    cover!(len > K && a.len() < len && a.len() > 0, "multi-byte character present, line shorter than the input");
+    assert!(a.as_ptr() == b.as_ptr());
+    assert!(a.len() == b.len());
+}
+
 harnesses! {
     #[kani::unwind(3)]
     fn c12_line_col_0() [] : "Q|line_col vs pest; empty string, all usize offsets" { line_col::<0>() }
@@ -91,6 +120,10 @@ harnesses! {
     fn c12_line_of_2() [] : "Q|line_of vs pest (same sub-slice); 2 bytes over {LF,CR,'a'}, all offsets" { line_of::<2>(b"\n\ra") }
     #[kani::unwind(5)]
     fn c12_line_of_3() [] : "Q|line_of vs pest; 3 bytes over {LF,CR,'a'}" { line_of::<3>(b"\n\ra") }
+    #[kani::unwind(8)]
+    fn c12_line_of_kinds_3() [] : "Q|line_of vs pest; 3 characters drawn from {LF,CR,'a','é'} (3..6 bytes), all offsets" { line_of_kinds::<3, 6>() }
+    #[kani::unwind(10)]
+    fn c12_line_of_kinds_4() [] : "T|line_of vs pest; 4 characters drawn from {LF,CR,'a','é'} (4..8 bytes)" { line_of_kinds::<4, 8>() }
     #[kani::unwind(6)]
     fn c12_line_of_4() [] : "T|line_of vs pest; 4 bytes over {LF,CR,'a'}" { line_of::<4>(b"\n\ra") }
 }
